@@ -178,6 +178,13 @@ def predict(cfg, rng, q=None):
         return out, 0, False
     res, scale = residuals(q, rng)
     tol = max(1e-9, 1e2 * tail)
+    # the RETURNED axis arrays are the curve the frame belongs to: d r0/d phi = (R0', R0, Z0') = d_l_d_phi * tangent (cylindrical components)
+    n += 1
+    t_ = q.tangent_cylindrical
+    dev = max(float(np.max(np.abs(dphi_indep(q, q.R0) - q.d_l_d_phi * t_[:, 0]))), float(np.max(np.abs(q.R0 - q.d_l_d_phi * t_[:, 1]))),
+              float(np.max(np.abs(dphi_indep(q, q.Z0) - q.d_l_d_phi * t_[:, 2]))))
+    if dev > max(1e-9, 1e2 * tail) * float(np.max(np.abs(q.d_l_d_phi))):
+        out.append(dict(key='axis:tangent', what='the returned axis arrays R0, Z0 are not the curve whose tangent is returned: |d r0/d phi - (dl/dphi) t| = %.3g' % dev, cfg=jsonable(cfg), rel=dev))
     orders = ['r1'] + (['r2'] if q.order in ('r2', 'r3') else []) + (['r3'] if q.order == 'r3' else [])
     for o in orders:
         for (name, k, how) in CLAIMS[o]:
